@@ -445,11 +445,46 @@ impl Prop for Hist {
         }
     }
 
+    fn enumerate(&self, ctx: &Ctx, ev: &mut Ev, report: &mut dyn FnMut(HistCase, Fail)) {
+        if self.which != Which::C18 {
+            return;
+        }
+        // roots whose best line STARTS with an under-promotion and goes on: themed promotion positions (C10's
+        // construction) in which every key of the forced mate in two is a promotion to knight, bishop or rook
+        let n = ctx.tier.pick(120_000, 1_500_000) as u64;
+        for i in 0..n {
+            if !ctx.owns(i) {
+                continue;
+            }
+            let bytes: Vec<u8> = (0..20u64).map(|k| (mix(i * 31 + k) >> 11) as u8).collect();
+            let Some(p) = crate::props::c10::build_themed(1, &bytes, (i % 4) as u8) else { continue };
+            if !search_friendly(&p) || !mate_in_1_moves(&p).is_empty() {
+                continue;
+            }
+            // (cheap pre-filter: some under-promotion must be legal at all)
+            if !p.legal().iter().any(|m| m.promo != 0 && m.promo != b'q') {
+                continue;
+            }
+            let keys = mate_in_2_moves(&p);
+            if keys.is_empty() || !keys.iter().all(|m| m.promo != 0 && m.promo != b'q') {
+                continue;
+            }
+            ev.class("roots_whose_mate_in_two_starts_with_an_under_promotion");
+            for depth in [4u8, 5] {
+                let case = HistCase { start: Start::Fen(p.fen6()), steps: vec![Step { nav: 0, back: 0, picks: vec![], root: 0, depth }], via_uci: false };
+                if let Err(f) = self.check(ctx, &case, ev) {
+                    report(case, f);
+                    return;
+                }
+            }
+        }
+    }
+
     fn rule(&self) -> String {
         let common = "Cases (stateful): a start position and 1-8 steps; each step navigates the game (extend by generated picks / take back 0-3 plies and extend / add an a-b-a-b shuffle so that the repetition filter triggers / jump to another curated root / ucinewgame / a forced four-ply cycle (perpetual check) so that the root has a single legal move which is also the move the repetition filter removes / search the parent of a mating or stalemating move to depth 3-5 and then the dead position itself / a search STOPPED by the hook after 0-159 polls followed by searches of every cached child and grandchild as roots of their own) and then searches the reached position to depth 1-5, all steps sharing ONE transposition table, in-process (get_best_move_until_stop on a game built with push_history) or, for about 1 history in 6, through the real binary (`position fen … moves …`, `go depth d`, `wait`). ";
         match self.which {
             Which::C06 => format!("{}Oracle: the announced move is a legal move of the reference model's position; no move is announced iff the model has no legal move. evaluations = searches judged. Non-trivial search: the table already held an entry for the root when the search started, or the root has 1-2 legal moves, or a repetition pattern is present in the game record; distinct by (history, depth).", common),
-            Which::C18 => format!("{}Oracle: every `info pv m1 … mk` line printed during a search of position P replays in the reference model: m1 legal in P, m2 legal in P·m1, … evaluations = pv lines judged. Non-trivial line: k >= 2 and the table held entries from an earlier search; distinct by (position, line).", common),
+            Which::C18 => format!("{}Oracle: every `info pv m1 … mk` line printed during a search of position P replays in the reference model: m1 legal in P, m2 legal in P·m1, … Every tier also searches (depth 4 and 5, fresh table) the roots among 120 000 (thorough 1.5 million) themed promotion constructions in which every key of the forced mate in two is an under-promotion, so that printed lines start with a promotion to knight, bishop or rook and go on from the promoted piece. evaluations = pv lines judged. Non-trivial line: k >= 2 and the table held entries from an earlier search; distinct by (position, line).", common),
         }
     }
 
